@@ -46,13 +46,20 @@ def make(gs, rng_seed):
     nx, ny = gs["nx"], gs["ny"]
     xs, ys = np.meshgrid(np.arange(nx) * 1.5 + 9.0, np.arange(ny) * 1.25 - 4.0, indexing="ij")
     pts = np.stack([xs.ravel(), ys.ravel()], axis=1) + np.round(rng.random((nx * ny, 2)) * 0.3, 3)
-    cells = []
+    cells, types = [], []
     for i in range(nx - 1):
         for j in range(ny - 1):
             a, b, c, d = i * ny + j, (i + 1) * ny + j, (i + 1) * ny + j + 1, i * ny + j + 1
-            cells += [[a, b, c], [a, c, d]]
+            if gs.get("mixed") and (i + j) % 2 == 0:
+                cells.append([a, b, c, d])  # quad
+                types.append(fm.CellType.QUAD)
+            else:
+                cells += [[a, b, c], [a, c, d]]
+                types += [fm.CellType.TRI, fm.CellType.TRI]
     loc = gs["location"]
-    g = fm.UnstructuredGrid(pts, cells, [fm.CellType.TRI] * len(cells), data_location=loc, order=gs.get("order", "C"))
+    width = max(len(c) for c in cells)
+    padded = [c + [-1] * (width - len(c)) for c in cells]  # mixed meshes pad shorter cells with -1
+    g = fm.UnstructuredGrid(pts, padded, types, data_location=loc, order=gs.get("order", "C"))
     if loc == "POINTS":
         return g, pts, (len(pts),), gs.get("order", "C")
     cen = np.array([pts[c].mean(axis=0) for c in cells])
@@ -69,7 +76,8 @@ def rand_grid(rnd, dim, allow_esri=True):
         return dict(kind="struct", spec=s, dim=len(s["dims"]))
     if r < 0.8 or dim != 2:
         return dict(kind="upoints", dim=dim, n=rnd.randint(dim + 4, 14), order=rnd.choice("CF"))
-    return dict(kind="ucells", dim=2, nx=rnd.randint(3, 4), ny=rnd.randint(3, 4), location=rnd.choice(["CELLS", "POINTS"]), order=rnd.choice("CF"))
+    return dict(kind="ucells", dim=2, nx=rnd.randint(3, 4), ny=rnd.randint(3, 4), location=rnd.choice(["CELLS", "CELLS", "POINTS"]), order=rnd.choice("CF"),
+                mixed=rnd.random() < 0.5)
 
 
 class C16(Property):
@@ -258,14 +266,14 @@ class C16(Property):
         if checked >= 4 and (not spec["same_geometry"] or spec["src"] != spec["tgt"]):
             out.key = repr((spec["method"], spec["src"], spec["tgt"], spec["smask"], spec["tmask"], spec["fill"]))
         for side, g in (("src", spec["src"]), ("tgt", spec["tgt"])):
-            out.count(f"{side}_{g['kind']}" + ("_" + g["spec"]["cls"] if g["kind"] == "struct" else ""))
+            out.count(f"{side}_{g['kind']}" + ("_" + g["spec"]["cls"] if g["kind"] == "struct" else "") + ("_mixed" if g.get("mixed") else ""))
         out.count(f"dim_{dim}")
         return out
 
     def coverage_gaps(self, counters, tier):
         need = ["method_nearest", "method_linear", "target_elements_checked", "identity_between_layouts_checked", "inside_hull_checked",
                 "outside_hull_masked_checked", "outside_hull_filled_checked", "poison_runs", "dim_1", "dim_2", "dim_3",
-                "src_struct_uniform", "src_struct_rect", "src_struct_esri", "src_upoints", "src_ucells", "tgt_struct_uniform", "tgt_upoints", "tgt_ucells"]
+                "src_struct_uniform", "src_struct_rect", "src_struct_esri", "src_upoints", "src_ucells", "src_ucells_mixed", "tgt_struct_uniform", "tgt_upoints", "tgt_ucells"]
         return [f"{k} never observed" for k in need if not counters.get(k)]
 
 
